@@ -301,8 +301,9 @@ func runCLI(s *cliScript, input string) (cliRun, error) {
 	stdin := ""
 	switch s.Transport {
 	case "file":
-		p := filepath.Join(dir, "in.pql")
+		p := filepath.Join(dir, "in?.pql")
 		os.WriteFile(p, []byte(input), 0o644)
+		os.WriteFile(filepath.Join(dir, "in1.pql"), []byte("DECOY | count;\n"), 0o644)
 		args = append(args, p)
 	case "files", "files-with-stdin":
 		pieces := s.pieces(input)
@@ -312,8 +313,11 @@ func runCLI(s *cliScript, input string) (cliRun, error) {
 				stdin = piece
 				continue
 			}
-			p := filepath.Join(dir, fmt.Sprintf("in%d.pql", i))
+			// file names with pattern characters, next to files the pattern would
+			// match: an argument names one file
+			p := filepath.Join(dir, fmt.Sprintf("in[%d].pql", i))
 			os.WriteFile(p, []byte(piece), 0o644)
+			os.WriteFile(filepath.Join(dir, fmt.Sprintf("in%d.pql", i)), []byte("DECOY | count;\n"), 0o644)
 			args = append(args, p)
 		}
 		if s.DirAt != nil && s.Transport == "files" {
@@ -567,6 +571,17 @@ func TestC16Scripts(t *testing.T) {
 			s.FinalNewline = s.FinalNewline || strings.Contains(s.Stmts[len(s.Stmts)-1].Text, "//")
 		}
 		switch rapid.IntRange(0, 26).Draw(rt, "longline") {
+		case 24:
+			// hundreds of failing statements: the exit status is non-zero for
+			// any number of failures
+			nbad := rapid.SampledFrom([]int{255, 256, 257, 512, 768}).Draw(rt, "nbad")
+			for i := 0; i < nbad; i++ {
+				s.Stmts = append(s.Stmts, cliStmt{"badquery", fmt.Sprintf("T | nosuchoperator %d", i)})
+				s.Seps = append(s.Seps, "\n")
+			}
+			s.Stmts = append(s.Stmts, cliStmt{"query", "U | count"})
+			s.Seps = append(s.Seps, "\n")
+			kinds += "qQ"
 		case 25, 26:
 			// many small multi-line statements: more input than any buffer of
 			// the line reader holds at once
